@@ -129,8 +129,9 @@ theorem allowedSelf_model (m : MembershipAllower) :
               || m.oldMember.membership == b!"invite" || m.oldMember.membership == b!"join"
               || jr == b!"public") = true then .ok () else notAllowed
       else if (m.newMember.membership == b!"leave") = true then
-        (if (m.oldMember.membership == b!"join" || m.oldMember.membership == b!"invite" || m.oldMember.membership == b!"knock") = true
-         then .ok () else notAllowed)
+        (if (m.oldMember.membership == b!"join" || m.oldMember.membership == b!"invite") = true then .ok ()
+         else if (m.oldMember.membership == b!"knock") = true then checkKnockingAllowed m.row b!"knock" m.oldMember.membership
+         else notAllowed)
       else notAllowed := by
   unfold MembershipAllower.allowedSelf
   simp only [notAllowed_bind]
@@ -232,6 +233,19 @@ theorem checkKnocking_eq {m i row} (h : Rel m i row) (old : Bytes) :
     all_goals simp_all
     all_goals grind
 
+/-- cancelling a knock: the version's knocking check for a user outside a `knock` room answers whether the version has
+    knocking at all -/
+theorem knockLeave_eq {m i row} (h : Rel m i row) :
+    accepts (checkKnockingAllowed m.row b!"knock" b!"knock") = some i.sv.knock := by
+  unfold checkKnockingAllowed
+  rw [h.row, h.rowIs.knock]
+  have e1 : ("checkKnocking" == "disallowKnocking") = false := by decide
+  cases i.sv.knock with
+  | false => simp
+  | true =>
+    simp only [if_true, e1, Bool.false_eq_true, if_false, beq_self_eq_true]
+    decide
+
 theorem membership_cases (x : Bytes) :
     x = b!"join" ∨ x = b!"leave" ∨ x = b!"invite" ∨ x = b!"ban" ∨ x = b!"knock" ∨
     (x ≠ b!"join" ∧ x ≠ b!"leave" ∧ x ≠ b!"invite" ∧ x ≠ b!"ban" ∧ x ≠ b!"knock") := by
@@ -258,7 +272,13 @@ theorem allowedSelf_eq {m i row} (h : Rel m i row) (hself : i.selfSent = true) (
   · -- leave
     rw [allowedSelf_model]
     simp only [h.old, h.new, hn, ruleByMembership, ruleLeave, hself, hd1]
-    rcases membership_cases i.old.membership with ho | ho | ho | ho | ho | ho <;> simp [ho]
+    rcases membership_cases i.old.membership with ho | ho | ho | ho | ho | ho
+    · simp [ho]
+    · simp [ho]
+    · simp [ho]
+    · simp [ho]
+    · simp [ho, knockLeave_eq h]
+    · simp [ho]
   · -- invite
     rw [allowedSelf_model]
     simp only [h.old, h.new, hn, ruleByMembership, ruleInvite, hso]
